@@ -526,7 +526,12 @@ func runHistory1(h history, corr bool) {
 	}
 	var outs []string
 	var trace []string
+	seenKey := map[string]bool{}
 	viol := func(k int, key, what string, extra map[string]interface{}) {
+		if seenKey[key] {
+			return // the first occurrence in a history has the shortest prefix; building a replay is costly for big blocks
+		}
+		seenKey[key] = true
 		hh := h
 		hh.Ops = h.Ops[:k+1]
 		rep.Violate(key, what, hh.replay(extra))
@@ -947,6 +952,26 @@ func main() {
 		m := genBlock(r, 2, false)
 		m.Transactions = append(m.Transactions, m.Transactions[0])
 		runHistory(history{Ctor: "new", Msg: m, Ops: []opSpec{{"tx", 2}, {"tx", 0}, {"txs", 0}, {"txhash", 2}, {"txhash", 0}, {"txloc", 0}}}, !cfg.Search)
+	}
+	// identical transactions, adjacent and apart, as the same object and as equal copies: every arrangement of
+	// 2..4 transactions over a pool of two (locations must be told apart although the contents are equal)
+	for n := 2; n <= 4; n++ {
+		for mask := 0; mask < 1<<uint(n); mask++ {
+			pool := genBlock(r, 2, n == 3).Transactions
+			m := genBlock(r, 0, false)
+			for i := 0; i < n; i++ {
+				t := pool[(mask>>uint(i))&1]
+				if (mask+i)%3 == 0 {
+					t = t.Copy() // equal content, another object
+				}
+				m.AddTransaction(t)
+			}
+			rep.Histogram["duplicate_transactions_block"]++
+			ctor := ctors[mask%4]
+			h := mkHistory(r, ctor, m, 0)
+			h.Ops = []opSpec{{"txloc", 0}, {"tx", int64(n - 1)}, {"txhash", 0}, {"txs", 0}, {"bytes", 0}, {"txloc", 0}, {"txhash", int64(n - 1)}}
+			runHistory(h, !cfg.Search && n <= 3)
+		}
 	}
 	// the constructor that trusts its caller, given bytes of another block (precondition violated:
 	// recorded for the correspondence, excluded from the freshness monitors)
